@@ -108,6 +108,65 @@ CHECKS = [
           "constructor/as_unit/displayvalue/comparison code of Quantity (reflective class-object code outside the current engine "
           "subset) - 'si = value*factor', 'as_unit keeps si bit-identical' are not decided.",
   "technique": "ground obligations over the live unit tables (exhaustive evaluation)"},
+ {"property_id": "C02",
+  "text": "SimEvent.__init__/execute, DEVSSimulator.schedule_event/_now/_rel/_abs, cancel_event, _run (loop invariant), _step_impl "
+          "are verified against contracts: scheduling in the past / with a negative delay / at NaN raises DSOLError with the pending "
+          "set unchanged, otherwise exactly the new entry is added (whole-view postconditions over the C01 event-list contracts); the "
+          "run loop keeps the invariant (event-list well-formed, every pending time >= clock, clock never decreases); a ghost statement "
+          "at the handler invocation asserts for EVERY executed event: clock == its time, it is the minimum of all pending entries "
+          "(time, then higher priority, then creation order), it lies within the horizon, it has left the pending set (hence runs once "
+          "per scheduling). Handlers are callbacks with a rely condition (any use of the public scheduling API, any exception).",
+  "design_ref": "DESIGN.md section 6 C02",
+  "note": COMMON_NOTE + " Float clock model = reals + NaN/inf (an int clock embeds; no rounding). The Duration clock is NOT verified "
+          "symbolically (Quantity operators are outside the engine subset): the Duration TypeError defect was found and repaired "
+          "natively. Assumed: handlers/listeners use only the public API (rely condition), listeners of the simulator's own "
+          "notifications do not schedule/cancel or raise, SimEvent id counter contract, sequential execution of the run loop.",
+  "technique": "deductive verification: loop invariant + ghost trace assertions at the handler call, callback rely conditions; z3 + cvc5"},
+ {"property_id": "C03",
+  "text": "Postconditions of the run loop at every normal exit (clock at the bound, nothing pending within the horizon, replication "
+          "marked ending iff the bound reached the replication end, otherwise replication state untouched = resumable), every "
+          "executed event within the horizon (ghost assertion), run_up_to/run_up_to_including/start refuse (DSOLError, strict frame) "
+          "unless startable and clock <= bound <= replication end, step executes at most one event and never one beyond the "
+          "replication end; the clock never moves backwards in any of them.",
+  "design_ref": "DESIGN.md section 6 C03",
+  "note": COMMON_NOTE + " The composition statement (any segmentation yields the same trace as one run) is NOT proved as a lemma: "
+          "it needs deterministic handlers as a function, which the relational callback contract does not provide; only the "
+          "per-segment postconditions are proved. Thread hand-off not modelled (commands verified at quiescence).",
+  "technique": "deductive verification: run-loop postconditions, command guards and strict refusal frames; z3 + cvc5"},
+ {"property_id": "C04",
+  "text": "Part (a) only, restricted to guards and frames: _check_start, _start_impl, start, run_up_to, run_up_to_including, stop, "
+          "step are verified to raise DSOLError exactly when the documented run-state / replication-state rule forbids the command, "
+          "and a refused command changes NO field of any object (strict frame obligation per field, so nobody is notified either); "
+          "accepted commands reach the documented state.",
+  "design_ref": "DESIGN.md section 6 C04",
+  "category": "proof",
+  "note": "NOT covered: the well-formedness of the notification stream (start/stop alternation, warm-up once, end once and last), "
+          "initialize/cleanup/end_replication, the run thread body, and part (b) (interleavings of a command with the run thread: no "
+          "thread semantics in this family). " + COMMON_NOTE,
+  "technique": "deductive verification: guard postconditions and strict exceptional frames of the lifecycle commands; z3"},
+ {"property_id": "C05",
+  "text": "The run loop's except-branches are verified for the log/warn-and-continue and warn-and-pause strategies: the loop invariant "
+          "and all ghost assertions hold again after a failing handler exactly as after a returning one (same rely condition), "
+          "warn-and-pause requests STOPPING so the loop exits with the replication state untouched; SimEvent.execute raises only "
+          "DSOLError; Simulator.step raises only the DSOLError of its guards (a failing handler or the message construction cannot "
+          "escape as another exception type), ends STOPPED with the invariant intact and at most one event executed.",
+  "design_ref": "DESIGN.md section 6 C05",
+  "note": COMMON_NOTE + " WARN_AND_END / WARN_AND_EXIT are outside the statement (precondition). Resuming after a pause executes the "
+          "remainder: follows from the C03 per-segment postconditions, not separately proved.",
+  "technique": "deductive verification: exceptional paths preserve the loop invariant; raises-clauses of step/execute; z3 + cvc5"},
+ {"property_id": "C14",
+  "text": "draw() of 18 of the 19 concrete distribution classes (all but DistNormalTrunc), DistNormal._next_gaussian, the stream "
+          "(re)pointing methods and DistGamma.__init__ are verified against contracts over the C12 stream contract (one next_float = "
+          "one step of the abstract generator, value in [0,1) including exactly 0): totality (raises nothing: every log/sqrt/pow/"
+          "division site is an obligation), support (postcondition), frame = only the stream state (and the normal's own cache) "
+          "changes, effects = deterministic, so equal parameters on equal stream states give equal draws and instances never influence "
+          "each other; loops (binomial, negative binomial, Erlang, gamma's bounded rejection loops, Poisson, polar normal) by "
+          "invariants; re-pointing establishes that every inner distribution draws from the new stream and the cached gaussian is dropped.",
+  "design_ref": "DESIGN.md section 6 C14",
+  "note": COMMON_NOTE + " 15 obligations are refuted and natively reproduced (uniform exactly 0.0, p = 0): they are listed as "
+          "known findings, not repaired. Not under contract: DistNormalTrunc.draw (accuracy guards of erf_inv), most constructors "
+          "(validation), the Quantity-valued wrappers. math functions are axiomatised (domain/sign/monotonicity), values over the reals.",
+  "technique": "deductive verification: totality/support/frame contracts per sampling algorithm over an abstract stream, loop invariants; z3"},
 ]
 _claimed = {c["property_id"] for c in CHECKS}
 NOT_APPLICABLE = [
